@@ -277,9 +277,15 @@ func evalSeq(d seqDesc) ev.Result {
 	//   tokOwner: the session the token belongs to (nil: none / forged)
 	//   legit:    the model says this request is the legitimate next message of tokOwner
 	ctxKey := ""
+	// tolerate: the request IS the in-order next message of its live session, but the session may
+	// legitimately fail because another session of the same device already replaced the voucher;
+	// the message's normal effects are allowed, success is not required
+	tolerate := false
 	post := func(typ int, token string, body []byte, tokOwner *session, legit bool, what string) (peer.Resp, *ev.Result) {
 		ck := ctxKey
 		ctxKey = ""
+		tol := tolerate
+		tolerate = false
 		j0 := w.svc.J.Len()
 		r := peer.Post(h, typ, token, body)
 		trace = append(trace, fmt.Sprintf("%s:%d->%d/%d", what, typ, r.Status, r.Type))
@@ -304,7 +310,7 @@ func evalSeq(d seqDesc) ev.Result {
 			}
 		}
 		allowed := map[string]bool{}
-		if legit {
+		if legit || tol {
 			switch typ {
 			case 12:
 				allowed["AddVoucher"] = true
@@ -474,14 +480,17 @@ func evalSeq(d seqDesc) ev.Result {
 				continue
 			}
 			legit := len(exp) > 0
-			if s.proto == pTO2 && w.gone[s.dev] {
-				legit = false // doomed: another session of this device already replaced the voucher
+			if legit && s.proto == pTO2 && w.gone[s.dev] {
+				// doomed: another session of this device already replaced the voucher; the messages are
+				// still in order within their own session, so they may be served or refused
+				legit, tolerate = false, true
 			}
+			doomed := tolerate
 			r, bad := post(typ, s.token, body, s, legit, fmt.Sprintf("step %d next(slot %d)", i, slot))
 			if bad != nil {
 				return *bad
 			}
-			if legit && r.Status == 200 && r.Type == typ+1 {
+			if (legit || doomed) && r.Status == 200 && r.Type == typ+1 {
 				advance(s, typ, body, r)
 				progressed++
 			}
